@@ -37,6 +37,11 @@ PERTURB += [
     "SELECTED_OUTPUT 1\n -reset false\nUSER_PUNCH 1\n -headings a b\n 10 DIM q(10)\n 20 q(3) = 17\n 30 DATA 5, 6, 7\n 40 READ x\n 50 zz = 99\n 60 PUNCH q(3), x\nUSER_PRINT\n 10 PRINT \"hello\", EOL_NOTAB$\nSOLUTION 1\n Na 1\nEND\n",
     "SELECTED_OUTPUT 1\n -reset false\nUSER_PUNCH 1\n -headings a\n 10 DIM a(2)\n 20 PUNCH NO_NEWLINE$ + STR$(a(5))\nSOLUTION 1\n Na 1\nEND\n",
 ]
+PERTURB += [
+    # numbered reactants of the kinds the other snippets do not define: they must not survive a load (final DUMP -all, RUN_CELLS of the probe)
+    "SOLUTION 1\n Na 1\n Cl 1\nREACTION_PRESSURE 1\n 800\nREACTION_PRESSURE 4\n 10 20\nREACTION_TEMPERATURE 4\n 30\nREACTION 4\n NaCl 1\n 0.001\nMIX 4\n 1 1\nEND\n",
+    "SOLUTION 1-3\n Na 1\n Cl 1\nREACTION_PRESSURE 1-3\n 500\nREACTION_TEMPERATURE 1-3\n 60\nREACTION 1-3\n NaCl 1\n 0.002\nMIX 2\n 1 0.5\n 3 0.5\nUSE solution none\nEND\n",
+]
 FAILING = [
     "SOLUTION 1\n Na 1\n Clx 3 charge\nEND\n",                 # input error
     "SOLUTION 1\n pH 7 charge\n Na 1 charge\nEND\n",            # two charge balances
@@ -79,7 +84,7 @@ def gen_case(rng, example_hist=None):
     probe_db = rng.choice(["phreeqc.dat", "phreeqc.dat", "wateq4f.dat", "pitzer.dat"])
     probe, info = gen_inputs.multi_sim_input(rng, user_numbers=[1, 3], nsims=rng.randint(1, 3))
     if probe_db != "pitzer.dat":
-        probe = PROBE_EXTRA + probe
+        probe = PROBE_EXTRA + probe + "RUN_CELLS\n -cells 1-3\nEND\n"      # consults every surviving reactant numbered 1..3
     else:
         probe = "SOLUTION 1\n Na 1000\n Cl 1000\n Mg 50\n S(6) 50\nSELECTED_OUTPUT 1\n -high_precision true\n -totals Na Mg\n -activities Na+ H2O\nUSER_PUNCH 1\n -headings g osm\n 10 PUNCH GET(1), OSMOTIC\nEND\n"
     return {"hist": hist, "probe_db": probe_db, "probe": probe, "load_by": rng.choice(["file", "string"])}
